@@ -1,5 +1,7 @@
 // h_hash.cpp - C02: HashMap / HashSet / PoolMap against an insertion-ordered unique-key reference table
 // modes: hmap, hset, pmap (swarm random histories; key type = case index % 3: Elem with generator-chosen hash / String / int),
+//        pmapv (the pmap histories with a mapped type that has no user-provided default constructor: long / plain struct, alternating: an entry created
+//        from a key only must hold V(), i.e. zero in every member, also when its slot held another entry before),
 //        chains (directed: every insertion order of n<=N keys into capacity 1..3 tables, every removal position)
 // Monitors: reference model = array of (key index, value id) in iteration order, compared after every operation (size, isEmpty, iteration both
 // directions, find/contains for the whole universe plus absent keys, front/back, returned iterators/references, ==/!= against a second live table);
@@ -27,6 +29,28 @@ static bool modelEq(const Model& a, const Model& b, bool values) { if (a.n != b.
 
 // value type of PoolMap: default constructible only; the harness tags it after insertion
 struct PVal { Elem guard; long tag; PVal() : guard(-7), tag(0) {} };
+// plain mapped types of PoolMap (no user-provided default constructor): append(key) / insert(pos, key) of a new key must hand out V() - zero for the scalar,
+// every member zero for the struct - whatever the storage of the new entry contained before. The harness fills every member with a non-zero pattern derived
+// from the model value, so a recycled slot never holds zeros by accident.
+static const char g_podAnchor = 'p';
+struct Pod { int a; long tag; const void* p; double d; unsigned char b[5]; };
+static long pvTag(const PVal& v) { return v.tag; }
+static long pvTag(const long& v) { return v; }
+static long pvTag(const Pod& v) { return v.tag; }
+static void pvSet(PVal& x, long v) { x.tag = v; }
+static void pvSet(long& x, long v) { x = v; }
+static void pvSet(Pod& x, long v) { x.tag = v; x.a = (int)v + 1000003; x.p = &g_podAnchor; x.d = (double)v + 0.5; for (int i = 0; i < 5; ++i) x.b[i] = (unsigned char)(0xa1 + i); }
+// 0 = the value is V(); otherwise the name of the first member that is not
+static const char* pvNotFresh(const PVal& v) { return v.tag != 0 ? "tag" : v.guard.id != -7 ? "guard" : 0; }
+static const char* pvNotFresh(const long& v) { return v != 0 ? "scalar" : 0; }
+static const char* pvNotFresh(const Pod& v) { if (v.a != 0) return "int member"; if (v.tag != 0) return "long member"; if (v.p != 0) return "pointer member"; if (!(v.d == 0.0)) return "double member"; for (int i = 0; i < 5; ++i) if (v.b[i]) return "byte array member"; return 0; }
+// a stored value still carries everything pvSet wrote (0 = yes; otherwise the member that does not)
+static const char* pvDamaged(const PVal& v) { return v.guard.id != -7 ? "guard" : 0; }
+static const char* pvDamaged(const long&) { return 0; }
+static const char* pvDamaged(const Pod& v) { if (v.a != (int)v.tag + 1000003) return "int member"; if (v.p != &g_podAnchor) return "pointer member"; if (!(v.d == (double)v.tag + 0.5)) return "double member"; for (int i = 0; i < 5; ++i) if (v.b[i] != (unsigned char)(0xa1 + i)) return "byte array member"; return 0; }
+static const char* pvClass(const PVal&) { return "class"; }
+static const char* pvClass(const long&) { return "scalar"; }
+static const char* pvClass(const Pod&) { return "plain-struct"; }
 
 // ---------------------------------------------------------------- key families
 struct KElem {
@@ -52,14 +76,16 @@ struct KStr {
   static const char* name() { return "String"; }
 };
 
-enum { HMAP = 0, HSET = 1, PMAP = 2 };
+enum { HMAP = 0, HSET = 1, PMAP = 2, PMAPL = 3, PMAPS = 4 };   // PMAP*: PoolMap with mapped type PVal (class) / long / Pod
+static constexpr bool isPM(int kind) { return kind >= PMAP; }
 template <class KT, int KIND> struct Sel;
-template <class KT> struct Sel<KT, HMAP> { typedef HashMap<typename KT::K, Elem> C; static const char* name() { return "HashMap"; } };
-template <class KT> struct Sel<KT, HSET> { typedef HashSet<typename KT::K> C; static const char* name() { return "HashSet"; } };
-template <class KT> struct Sel<KT, PMAP> { typedef PoolMap<typename KT::K, PVal> C; static const char* name() { return "PoolMap"; } };
+template <class KT> struct Sel<KT, HMAP> { typedef Elem V; typedef HashMap<typename KT::K, Elem> C; static const char* name() { return "HashMap"; } };
+template <class KT> struct Sel<KT, HSET> { typedef int V; typedef HashSet<typename KT::K> C; static const char* name() { return "HashSet"; } };
+template <class KT> struct Sel<KT, PMAP> { typedef PVal V; typedef PoolMap<typename KT::K, PVal> C; static const char* name() { return "PoolMap"; } };
+template <class KT> struct Sel<KT, PMAPL> { typedef long V; typedef PoolMap<typename KT::K, long> C; static const char* name() { return "PoolMap"; } };
+template <class KT> struct Sel<KT, PMAPS> { typedef Pod V; typedef PoolMap<typename KT::K, Pod> C; static const char* name() { return "PoolMap"; } };
 
-#ifndef VERIF_NO_PRIVATE
-// ---------------------------------------------------------------- pointer set for the structural walker
+// ---------------------------------------------------------------- pointer set (structural walker; addresses of PoolMap values handed out so far)
 struct PtrSet {
   const void** tab; size_t cap, n;
   PtrSet() : tab(0), cap(0), n(0) {}
@@ -70,7 +96,11 @@ struct PtrSet {
   bool add(const void* p) { if ((n + 1) * 2 > cap) grow(); size_t s = slot(p); while (tab[s]) { if (tab[s] == p) return false; s = (s + 1) & (cap - 1); } tab[s] = p; ++n; return true; }
   bool has(const void* p) const { size_t s = slot(p); while (tab[s]) { if (tab[s] == p) return true; s = (s + 1) & (cap - 1); } return false; }
 };
+// addresses of the mapped values of all PoolMap entries created since the tables of the current case / chain table were set up (public API: the returned
+// reference). A new entry at an address seen before occupies a recycled slot. Evidence only (which storage class the V() check observed), no verdict.
+static PtrSet g_valueAddrs;
 
+#ifndef VERIF_NO_PRIVATE
 // Pool accounting of the walker. Nothing about the number of slots per block is assumed: a block is one heap allocation, its exact size comes from
 // vh::allocSize (sanitizer builds; 0 = unknown, e.g. the plain -O2 build: every size-dependent sub-check is skipped then). From the library's own
 // declarations only sizeof(ItemBlock) (the header in front of the slots) and sizeof(Item) (the slot width) are used.
@@ -103,6 +133,7 @@ template <class KT, int KIND> struct Ck {
   typedef typename Sel<KT, KIND>::C C;
   typedef typename C::Iterator It;
   typedef typename KT::K K;
+  typedef typename Sel<KT, KIND>::V V;
   // cap: number of buckets the table works with. Normal flavour: the value of the private member read when the table was constructed / copied / assigned
   // (whatever the library chose), afterwards only swap may change it. Public-API flavour: the nominal value (constructor argument, 0 -> 1; 500 for default
   // constructed and copied tables) - there it only selects the generator's state class, no verdict depends on it.
@@ -123,7 +154,7 @@ template <class KT, int KIND> struct Ck {
 #endif
 
   static int kidx(const It& it) { if constexpr (KIND == HSET) return KT::index(*it); else return KT::index(it.key()); }
-  static long val(const It& it) { if constexpr (KIND == HMAP) return (*it).id; else if constexpr (KIND == PMAP) return (*it).tag; else return 0; }
+  static long val(const It& it) { if constexpr (KIND == HMAP) return (*it).id; else if constexpr (isPM(KIND)) return pvTag(*it); else return 0; }
 
   It iterAt(C& c, size_t idx) { It it = c.begin(); for (size_t i = 0; i < idx; ++i) { if (it == c.end()) fail(key("iteration"), "iteration ends after %lu entries, model has more", (unsigned long)i); ++it; } return it; }
   size_t indexOf(C& c, const It& x, size_t limit) { size_t i = 0; for (It it = c.begin();; ++it, ++i) { if (it == x) return i; if (it == c.end() || i > limit) return npos; } }
@@ -138,6 +169,7 @@ template <class KT, int KIND> struct Ck {
       if (kidx(it) != ref[i].k || val(it) != ref[i].v) fail(key("iteration"), "forward position %lu holds (key#%d,%ld), model (key#%d,%ld)", (unsigned long)i, kidx(it), val(it), ref[i].k, ref[i].v);
       { const It cit = it; It nx = ++cit; It same = it; ++same; if (nx != same || cit != it) fail(key("iterator"), "const prefix ++ at position %lu does not yield the successor", (unsigned long)i); It back = --nx; (void)back; if (i && (--cit) == it) fail(key("iterator"), "const prefix -- at position %lu yields the same position", (unsigned long)i); }
       if (it.operator->() != &*it) fail(key("iterator"), "operator-> and operator* designate different objects at position %lu", (unsigned long)i);
+      if constexpr (isPM(KIND)) { if (const char* bad = pvDamaged(*it)) fail(key("value"), "the %s of the value stored at position %lu (key#%d, %ld) no longer holds what was written to it", bad, (unsigned long)i, kidx(it), val(it)); }
     }
     if (i != ref.n) fail(key("iteration"), "forward iteration yields %lu entries, model %lu", (unsigned long)i, (unsigned long)ref.n);
     if (ref.n) {
@@ -147,9 +179,9 @@ template <class KT, int KIND> struct Ck {
       if constexpr (KIND == HMAP) {
         if (c.front().id != ref[0].v) fail(key("front"), "front() %ld != %ld", c.front().id, ref[0].v);
         if (c.back().id != ref[ref.n - 1].v) fail(key("back"), "back() %ld != %ld", c.back().id, ref[ref.n - 1].v);
-      } else if constexpr (KIND == PMAP) {
-        if (c.front().tag != ref[0].v) fail(key("front"), "front() %ld != %ld", c.front().tag, ref[0].v);
-        if (c.back().tag != ref[ref.n - 1].v) fail(key("back"), "back() %ld != %ld", c.back().tag, ref[ref.n - 1].v);
+      } else if constexpr (isPM(KIND)) {
+        if (pvTag(c.front()) != ref[0].v) fail(key("front"), "front() %ld != %ld", pvTag(c.front()), ref[0].v);
+        if (pvTag(c.back()) != ref[ref.n - 1].v) fail(key("back"), "back() %ld != %ld", pvTag(c.back()), ref[ref.n - 1].v);
       } else {
         const C& cc = c;
         if (KT::index(cc.front()) != ref[0].k) fail(key("front"), "front() key#%d != key#%d", KT::index(cc.front()), ref[0].k);
@@ -187,7 +219,7 @@ template <class KT, int KIND> struct Ck {
     return "order-differs";
   }
   void equality(Box& a, Box& b) {
-    if constexpr (KIND != PMAP) {
+    if constexpr (!isPM(KIND)) {
       bool want = modelEq(a.ref, b.ref, KIND == HMAP); const char* rel = relation(a.ref, b.ref);
       char saved[256]; snprintf(saved, sizeof saved, "%s", (const char*)ctx);
       setctxf("%s.operator==/%s", cname(), rel); setItem("equality_relations", rel);
@@ -297,11 +329,22 @@ template <class KT, int KIND> struct Ck {
       if (how == INSERT) { It pos = iterAt(c, posIdx); It r = c.insert(pos, kk); if (c.size() != ref.n) fail(key("size"), "size() %lu after the call, model %lu", (unsigned long)c.size(), (unsigned long)ref.n); size_t ri = indexOf(c, r, ref.n); if (ri != expect) fail(key("returned-iterator"), "returned iterator is at position %ld, expected %lu", (long)ri, (unsigned long)expect); }
       else if (how == APPEND) c.append(kk); else c.prepend(kk);
     } else {
-      PVal* r;
+      V* r;
       if (how == INSERT) { It pos = iterAt(c, posIdx); It ri = c.insert(pos, kk); if (c.size() != ref.n) fail(key("size"), "size() %lu after the call, model %lu", (unsigned long)c.size(), (unsigned long)ref.n); size_t rx = indexOf(c, ri, ref.n); if (rx != expect) fail(key("returned-iterator"), "returned iterator is at position %ld, expected %lu", (long)rx, (unsigned long)expect); r = &*ri; }
       else { r = &c.append(kk); if (c.size() != ref.n) fail(key("size"), "size() %lu after the call, model %lu", (unsigned long)c.size(), (unsigned long)ref.n); It e = iterAt(c, expect); if (&*e != r) fail(key("returned-reference"), "returned reference is not the value of the entry at position %lu", (unsigned long)expect); }
-      if (exists) { if (r->tag != oldv) fail(key("value"), "existing entry's value changed from %ld to %ld", oldv, r->tag); }
-      else { if (r->tag != 0 || r->guard.id != -7) fail(key("value"), "new entry's value is not default constructed (tag %ld)", r->tag); r->tag = v; }
+      if (exists) { if (pvTag(*r) != oldv) fail(key("value"), "existing entry's value changed from %ld to %ld", oldv, pvTag(*r)); }
+      else {
+        bool recycled = !g_valueAddrs.add(r);
+        if constexpr (KIND == PMAP) { if (const char* bad = pvNotFresh(*r)) fail(key("value"), "new entry's value is not default constructed (%s, tag %ld)", bad, r->tag); }
+        else {
+          // mapped type without a user-provided default constructor: the entry created from the key alone holds V() (the reference map's value), not what
+          // the storage held before
+          if (const char* bad = pvNotFresh(*r)) { char kb[64]; snprintf(kb, sizeof kb, "value=%s/not-value-initialised", pvClass(*r)); fail(key(kb), "the value of the entry created for the new key#%d is not V(): its %s is not zero (the value as a whole reads as model value %ld); the entry occupies %s", k, bad, pvTag(*r), recycled ? "a slot that held another entry before (stale value of the removed entry?)" : "a slot that was never used before"); }
+          cnt(recycled ? "plain_value_new_entry_recycled_slot" : "plain_value_new_entry_fresh_slot"); setItem("plain_value_insert_paths", how == INSERT ? "insert(pos,key)" : "append(key)");
+        }
+        cnt(recycled ? "pm_new_entry_recycled_slot" : "pm_new_entry_fresh_slot");
+        pvSet(*r, v);
+      }
     }
     (void)oldv;
     cnt(how == APPEND ? "op_append" : how == PREPEND ? "op_prepend" : "op_insert_pos");
@@ -350,10 +393,10 @@ template <class KT, int KIND> struct Ck {
     cnt("op_remove_it");
   }
   void opRemoveValue(Box& b, size_t idx) {   // PoolMap::remove(const V&)
-    if constexpr (KIND == PMAP) {
+    if constexpr (isPM(KIND)) {
       C& c = *b.c; It it = iterAt(c, idx); const char* cls = chainClass(c, it);
       setctxf("%s.remove(value)/chain-%s", cname(), cls); hist.addf("remove(value of #%lu)\n", (unsigned long)idx); setItem("chain_remove_pos", cls);
-      PVal& v = *it; c.remove(v);
+      V& v = *it; c.remove(v);
       b.ref.removeAt(idx); cnt("op_remove_value");
     }
   }
@@ -416,6 +459,7 @@ template <class KT, int KIND> static void history(Ck<KT, KIND>& ck, Rng& r, long
   bool dA, dB; usize capA = pickCap(r, dA), capB = pickCap(r, dB);
   hist.addf("# %s<%s> universe=%d nops=%d capacities %lu%s / %lu%s\n", CK::cname(), KT::name(), universe, nops, (unsigned long)capA, dA ? "(default ctor)" : "", (unsigned long)capB, dB ? "(default ctor)" : "");
   setupKeys(r, keyFamily, universe, capA, hist);
+  if constexpr (isPM(KIND)) { g_valueAddrs.reset(64); setItem("value_families", KIND == PMAP ? "class" : KIND == PMAPL ? "scalar" : "plain-struct"); hist.addf("# mapped type: %s\n", KIND == PMAP ? "PVal (class with default constructor)" : KIND == PMAPL ? "long" : "Pod (plain struct)"); }
   { char t[32]; snprintf(t, sizeof t, "%lu", (unsigned long)capA); setItem("capacities", t); snprintf(t, sizeof t, "%lu", (unsigned long)capB); setItem("capacities", t); }
   enum { NK = 14 };
   int w[NK]; int tot = 0;
@@ -436,16 +480,16 @@ template <class KT, int KIND> static void history(Ck<KT, KIND>& ck, Rng& r, long
     switch (kind) {
     case 0: if (KIND == HMAP && r.chance(1, 8)) { ck.opUpdateAliased(m, k, (int)r.below(3)); break; }
             ck.opInsert(m, CK::APPEND, 0, "", k, nextVal++); break;
-    case 1: if (KIND != PMAP) ck.opInsert(m, CK::PREPEND, 0, "", k, nextVal++); else ck.opInsert(m, CK::INSERT, 0, "begin", k, nextVal++); break;
+    case 1: if (!isPM(KIND)) ck.opInsert(m, CK::PREPEND, 0, "", k, nextVal++); else ck.opInsert(m, CK::INSERT, 0, "begin", k, nextVal++); break;
     case 2: { size_t n = m.ref.n, pi; const char* pn; switch (r.below(5)) { case 0: pi = 0; pn = "begin"; break; case 1: pi = n; pn = "end"; break; case 2: pi = n ? n - 1 : 0; pn = n ? "last" : "end"; break; case 3: pi = n > 1 ? 1 : n; pn = n > 1 ? "second" : "end"; break; default: pi = r.below(n + 1); pn = pi == n ? "end" : pi == 0 ? "begin" : "middle"; break; }
         if (pi == 0 && n == 0) pn = "end"; setItem("insert_positions", pn); ck.opInsert(m, CK::INSERT, pi, pn, k, nextVal++); break; }
     case 3: ck.opRemoveKey(m, k); removed = true; break;
-    case 4: if (m.ref.n) { size_t i = r.below(m.ref.n); if (KIND == PMAP && r.chance(1, 2)) ck.opRemoveValue(m, i); else ck.opRemoveIt(m, i); removed = true; } break;
+    case 4: if (m.ref.n) { size_t i = r.below(m.ref.n); if (isPM(KIND) && r.chance(1, 2)) ck.opRemoveValue(m, i); else ck.opRemoveIt(m, i); removed = true; } break;
     case 5: if (m.ref.n) { ck.opRemoveEnd(m, r.chance(1, 2)); removed = true; } break;
     case 6: ck.opClear(m); break;
     case 7: ck.opSwap(m, other); otherTouched = true; break;
     case 8:   // copy-construct, check, mutate the copy, check independence
-      if constexpr (KIND != PMAP) {
+      if constexpr (!isPM(KIND)) {
         setctxf("%s.copy-construct/%s", CK::cname(), m.ref.n ? "non-empty" : "empty"); hist.add("copy-construct; mutate the copy; destroy it\n");
         Box cp; cp.c = new C(*m.c); cp.ref = m.ref; cp.cap = CK::capOf(*cp.c, 500);   // the capacity of a copy is not specified: take what the library chose, the walker checks placement against it
         if (!cp.cap) fail("copy-construct/capacity", "copy has capacity 0");
@@ -460,7 +504,7 @@ template <class KT, int KIND> static void history(Ck<KT, KIND>& ck, Rng& r, long
       }
       break;
     case 9:   // other = m (onto empty / non-empty), or replace other by a copy-constructed table (capacity 500)
-      if constexpr (KIND != PMAP) {
+      if constexpr (!isPM(KIND)) {
         if (r.chance(1, 4)) { setctxf("%s.copy-construct/%s", CK::cname(), m.ref.n ? "non-empty" : "empty"); hist.add("other := new copy of m\n"); C* nc = new C(*m.c); setctxf("%s.destructor", CK::cname()); delete other.c; other.c = nc; other.cap = CK::capOf(*nc, 500); other.ref = m.ref; setctxf("%s.copy-construct/%s", CK::cname(), m.ref.n ? "non-empty" : "empty"); cnt("op_copy_construct"); }
         else { setctxf("%s.operator=/onto-%s", CK::cname(), other.ref.n ? "non-empty" : "empty"); hist.add("other = m\n"); setItem("assign_classes", other.ref.n ? (m.ref.n ? "nonempty=nonempty" : "nonempty=empty") : (m.ref.n ? "empty=nonempty" : "empty=empty")); *other.c = *m.c; other.ref = m.ref; other.cap = CK::capOf(*other.c, other.cap); cnt("op_assign"); }
         otherTouched = true;
@@ -478,7 +522,7 @@ template <class KT, int KIND> static void history(Ck<KT, KIND>& ck, Rng& r, long
       }
       break;
     case 11:  // other := perturbed rebuild of m through the public API (feeds the equality oracle with near-equal tables)
-      if constexpr (KIND != PMAP) {
+      if constexpr (!isPM(KIND)) {
         Model want(m.ref); int pert = (int)r.below(6); static const char* pn[] = { "identical", "two-swapped", "value-changed", "last-dropped", "key-replaced", "identical" };
         if (pert == 1 && want.n >= 2) { size_t i = r.below(want.n - 1); Ent t = want[i]; want[i] = want[i + 1]; want[i + 1] = t; }
         else if (pert == 2 && want.n && KIND == HMAP) want[r.below(want.n)].v = nextVal++;
@@ -492,7 +536,7 @@ template <class KT, int KIND> static void history(Ck<KT, KIND>& ck, Rng& r, long
       break;
     case 12: { hist.add("swap roles of m and other\n"); Box* t = mp; mp = op; op = t; otherTouched = true; break; }
     default:  // prepend/insert bursts of fresh keys so that chains grow
-      for (int j = 0; j < 4; ++j) { int kk2 = (int)r.below((u64)universe); if (KIND != PMAP && r.chance(1, 2)) ck.opInsert(m, CK::PREPEND, 0, "", kk2, nextVal++); else ck.opInsert(m, CK::APPEND, 0, "", kk2, nextVal++); }
+      for (int j = 0; j < 4; ++j) { int kk2 = (int)r.below((u64)universe); if (!isPM(KIND) && r.chance(1, 2)) ck.opInsert(m, CK::PREPEND, 0, "", kk2, nextVal++); else ck.opInsert(m, CK::APPEND, 0, "", kk2, nextVal++); }
       break;
     }
     Box& cur = *mp;
@@ -512,15 +556,19 @@ template <class KT, int KIND> static void history(Ck<KT, KIND>& ck, Rng& r, long
   endCase(fp, maxn >= 2 && removed);
 }
 
+template <int KIND> static void oneHistory(long idx) {
+  static Ck<KElem, KIND> ce; static Ck<KStr, KIND> cs; static Ck<KInt, KIND> ci;
+  beginCase(idx); ElemReg::reset();
+  Rng r(opts.seed, 2001 + KIND, (u64)idx);
+  int fam = (int)(idx % 3);
+  if (fam == 0) history(ce, r, idx, 0); else if (fam == 1) history(cs, r, idx, 1); else history(ci, r, idx, 2);
+}
 template <int KIND> static void randomHistories() {
-  Ck<KElem, KIND> ce; Ck<KStr, KIND> cs; Ck<KInt, KIND> ci;
-  for (long idx = opts.start; idx < opts.start + opts.cases; ++idx) {
-    if (!mine(idx)) continue;
-    beginCase(idx); ElemReg::reset();
-    Rng r(opts.seed, 2001 + KIND, (u64)idx);
-    int fam = (int)(idx % 3);
-    if (fam == 0) history(ce, r, idx, 0); else if (fam == 1) history(cs, r, idx, 1); else history(ci, r, idx, 2);
-  }
+  for (long idx = opts.start; idx < opts.start + opts.cases; ++idx) if (mine(idx)) oneHistory<KIND>(idx);
+}
+// PoolMap with plain mapped types: key family = idx % 3, mapped type = (idx / 3) % 2 (long / Pod)
+static void plainValueHistories() {
+  for (long idx = opts.start; idx < opts.start + opts.cases; ++idx) { if (!mine(idx)) continue; if ((idx / 3) % 2 == 0) oneHistory<PMAPL>(idx); else oneHistory<PMAPS>(idx); }
 }
 
 // ---------------------------------------------------------------- directed: all insertion orders of n<=N colliding keys into tiny tables, every removal
@@ -531,9 +579,10 @@ template <int KIND> static void chainCase(Ck<KElem, KIND>& ck, const int* seq, i
   // build by append (how 0), prepend / insert-at-begin (how 1), insert before the middle (how 2); then remove every position by iterator, by key, drain
   for (int rm = -2; rm < 2 * n; ++rm) {
     Box b; b.c = new C(cap); b.cap = CK::capOf(*b.c, cap ? cap : 1);
+    if constexpr (isPM(KIND)) g_valueAddrs.reset(64);
     for (int i = 0; i < n; ++i) {
       if (how == 0) ck.opInsert(b, CK::APPEND, 0, "", seq[i], 100 + i);
-      else if (how == 1) { if (KIND != PMAP) ck.opInsert(b, CK::PREPEND, 0, "", seq[i], 100 + i); else ck.opInsert(b, CK::INSERT, 0, b.ref.n ? "begin" : "end", seq[i], 100 + i); }
+      else if (how == 1) { if (!isPM(KIND)) ck.opInsert(b, CK::PREPEND, 0, "", seq[i], 100 + i); else ck.opInsert(b, CK::INSERT, 0, b.ref.n ? "begin" : "end", seq[i], 100 + i); }
       else { size_t pi = b.ref.n / 2; ck.opInsert(b, CK::INSERT, pi, pi == b.ref.n ? "end" : pi == 0 ? "begin" : "middle", seq[i], 100 + i); }
       if (rm == -2) ck.all(b, n, true);
     }
@@ -548,7 +597,7 @@ template <int KIND> static void chainCase(Ck<KElem, KIND>& ck, const int* seq, i
 }
 
 static void chains(int N) {
-  Ck<KElem, HMAP> cm; Ck<KElem, HSET> cs; Ck<KElem, PMAP> cp; long idx = 0;
+  Ck<KElem, HMAP> cm; Ck<KElem, HSET> cs; Ck<KElem, PMAP> cp; Ck<KElem, PMAPL> cl; Ck<KElem, PMAPS> cq; long idx = 0;
   for (int n = 1; n <= N; ++n) {
     int seq[12]; for (int i = 0; i < n; ++i) seq[i] = i; bool more = true;
     while (more) {
@@ -559,6 +608,8 @@ static void chains(int N) {
         hist.add("## HashMap\n"); chainCase<HMAP>(cm, seq, n, cap, how);
         hist.add("## HashSet\n"); chainCase<HSET>(cs, seq, n, cap, how);
         hist.add("## PoolMap\n"); chainCase<PMAP>(cp, seq, n, cap, how);
+        hist.add("## PoolMap<Elem, long>\n"); chainCase<PMAPL>(cl, seq, n, cap, how);
+        hist.add("## PoolMap<Elem, Pod>\n"); chainCase<PMAPS>(cq, seq, n, cap, how);
         setctx("chains/case-end"); ElemReg::checkBalanced("Hash");
         u64 fp = mix((u64)n * 16 + cap * 4 + (u64)how, 99); for (int i = 0; i < n; ++i) fp = mix(fp, (u64)seq[i]);
         if (idx % 1013 == 0) sample("%.900s", hist.c());
@@ -581,6 +632,7 @@ int main(int argc, char** argv) {
   if (!strcmp(m, "hmap")) randomHistories<HMAP>();
   else if (!strcmp(m, "hset")) randomHistories<HSET>();
   else if (!strcmp(m, "pmap")) randomHistories<PMAP>();
+  else if (!strcmp(m, "pmapv")) plainValueHistories();
   else if (!strcmp(m, "chains")) chains(opts.scale > 1 ? (int)opts.scale : 6);   // enumeration order does not depend on the bound: replays need no --scale
   else harnessBug("unknown mode %s", m);
 #ifndef VERIF_NO_PRIVATE
